@@ -50,6 +50,10 @@ def gen_rod(rng, tier, index):
     steps = int(rng.integers(10, 60 if tier == "thorough" else 30))
     solver = gen_solver(rng, name, steps, dt, contacts=False)
     solver["options"].pop("numerical_jacobian_method", None)
+    if name == "DualStormerVerlet":
+        # MINRES stops on its own (hidden) tolerance relative to the right-hand side, which is large for a stiff rod: the
+        # position bound reconstructed from the fixed-point tolerance does not apply to it
+        solver["kwargs"]["linear_solver"] = "LU"
     return {"scene": scene, "solver": solver, "kind": "rod"}
 
 
@@ -151,6 +155,21 @@ def monitor(R, out, log, quat_only=False, failed_steps=()):
     def bad(cls, sig, detail):
         out["violations"].append(violation(cls, sig, detail))
 
+    def moved_by_callback(k, g, bound, level="g_pre"):
+        """Signature suffix: the offending block is a Cosserat rod's own internal constraints, the state the solver had
+        converged to satisfied them within the bound, and the step callback (nodal quaternion normalisation) moved the
+        stored state off them."""
+        pre = getattr(R, level, {}).get(k)
+        if not pre:
+            return ""
+        for rod in getattr(B, "rods", []):
+            if hasattr(rod, "la_gDOF") and len(rod.la_gDOF) and float(np.max(np.abs(g[rod.la_gDOF]))) > bound and pre.get(id(rod), np.inf) <= bound:
+                others = [float(np.max(np.abs(g[c.la_gDOF]))) for c in s.contributions if hasattr(c, "la_gDOF") and c is not rod and len(c.la_gDOF)]
+                if not others or max(others) <= bound:
+                    interp = B.scene["rods"][B.rods.index(rod)]["spec"]["interp"]
+                    return f"/CosseratRod-{interp}/internal_constraints_moved_by_step_callback"
+        return ""
+
     gs, gds = [], []
     for k in range(nt):
         g = s.g(t[k], q[k])
@@ -173,16 +192,16 @@ def monitor(R, out, log, quat_only=False, failed_steps=()):
             continue
         if name in ("Rattle", "BackwardEuler"):
             if ng > newton_bound:
-                bad("pos_constraint", name, f"step {k}: |g|={ng:.3e} exceeds {newton_bound:.3e} (newton tol {opt.newton_atol:g})")
+                bad("pos_constraint", name + moved_by_callback(k, g, newton_bound), f"step {k}: |g|={ng:.3e} exceeds {newton_bound:.3e} (newton tol {opt.newton_atol:g})")
                 return
         if name == "DualStormerVerlet":
             if ng > fp_bound:
-                bad("pos_constraint", name, f"step {k}: |g|={ng:.3e} exceeds {fp_bound:.3e} (fixed-point tol {opt.fixed_point_atol:g}; accelerated={spec['kwargs'].get('accelerated')})")
+                bad("pos_constraint", name + moved_by_callback(k, g, fp_bound), f"step {k}: |g|={ng:.3e} exceeds {fp_bound:.3e} (fixed-point tol {opt.fixed_point_atol:g}; accelerated={spec['kwargs'].get('accelerated')})")
                 return
         if name == "Rattle":
             vb = 1e-7 * (1 + umax)
             if ngd > vb or nga > max(vb, newton_bound):
-                bad("vel_constraint", name, f"step {k}: |g_dot|={ngd:.3e}, |gamma|={nga:.3e} exceed {vb:.3e}")
+                bad("vel_constraint", name + (moved_by_callback(k, gd, vb, "gd_pre") if ngd > vb else ""), f"step {k}: |g_dot|={ngd:.3e}, |gamma|={nga:.3e} exceed {vb:.3e}")
                 return
         if name == "Moreau":
             tm, qm = R.mid[k]
@@ -294,6 +313,11 @@ def execute(plan, out, log):
         out["probes"]["truncated_by_back_end"] += 1
     if not (np.all(np.isfinite(sol.q)) and np.all(np.isfinite(sol.u))):
         raise Discard(f"nonfinite:{spec['name']}")
+    umax_run = float(np.max(np.abs(sol.u))) if np.asarray(sol.u).size else 0.0
+    if umax_run > 1e6 and umax_run > 1e4 * (1.0 + float(np.max(np.abs(np.asarray(sol.u)[0]))) if np.asarray(sol.u).size else 0.0):
+        # a step beyond the stability limit of an explicit scheme (Moreau / DualStormerVerlet on a stiff rod): the run blows
+        # up (velocities 1e15 ... 1e200, then underflow); this says nothing about constraint handling
+        raise Discard(f"unstable_run:{spec['name']}")
     out["steps"] = len(sol.t) - 1
     out["sim_time"] = float(sol.t[-1] - sol.t[0])
     check_solution_shape(sol, B.system, spec["name"], out["violations"])
